@@ -221,3 +221,111 @@ Theorem C08_reference_definition_rejects_bad_element : forall w sz e pre x post 
   check w (CRef true (CSeqOf sz e)) (VList (pre ++ x :: post)) = RFail why.
 Proof. exact reference_definition_rejects_bad_element. Qed.
 Print Assumptions C08_reference_definition_rejects_bad_element.
+
+(* ------------------------------------------------------------------ UTF8String__process (Leaf/Utf8.v, Leaf/Utf8Proofs.v)
+   the length / validation loop of skeletons/UTF8String.c behind UTF8String_constraint and behind the SIZE test of
+   every generated UTF8String checker.  [Chars bs cps]: bs is a concatenation of characters, each a start octet whose
+   entry in UTF8String_ht is `want`, want-1 continuation octets 0x80..0xBF, value >= UTF8String_mv[want]. *)
+From A1 Require Import Leaf.Utf8 Leaf.Utf8Proofs.
+
+(* accepted <-> every character is a well-formed sequence; the recorded values are the characters *)
+Theorem C08_utf8_process_exact : forall bs cps, u8_process bs = U8Ok cps <-> Chars bs cps.
+Proof. exact utf8_process_exact. Qed.
+Print Assumptions C08_utf8_process_exact.
+
+(* the returned length is the number of characters *)
+Theorem C08_utf8_length_counts_characters : forall bs n, 0 <= n ->
+  (utf8_length (Some bs) = n <-> exists cps, Chars bs cps /\ zlen cps = n).
+Proof. exact utf8_length_counts_characters. Qed.
+Print Assumptions C08_utf8_length_counts_characters.
+
+Theorem C08_utf8_length_negative_iff_illformed : forall bs,
+  (utf8_length (Some bs) < 0 <-> ~ exists cps, Chars bs cps).
+Proof. exact utf8_length_negative_iff_illformed. Qed.
+Print Assumptions C08_utf8_length_negative_iff_illformed.
+
+Theorem C08_utf8_constraint_exact : forall bs, utf8_constraint (Some bs) = 0 <-> exists cps, Chars bs cps.
+Proof. exact utf8_constraint_exact. Qed.
+Print Assumptions C08_utf8_constraint_exact.
+
+(* the loop terminates: as many iterations as octets suffice *)
+Theorem C08_utf8_process_total : forall bs, u8_process bs <> U8Fuel.
+Proof. exact utf8_process_total. Qed.
+Print Assumptions C08_utf8_process_total.
+
+(* every continuation position of an accepted character holds 0x80..0xBF (seeded change C08-8 tests the top bit only) *)
+Theorem C08_utf8_continuation_octets : forall ch cs v, WfSeq (ch :: cs) v -> Forall (fun c => 128 <= c <= 191) cs.
+Proof. exact wfseq_continuations. Qed.
+Print Assumptions C08_utf8_continuation_octets.
+
+(* the two rows of UTF8String_ht are the start-octet bit patterns 0xxxxxxx, 110xxxxx, ... 1111110x *)
+Theorem C08_utf8_table_is_bit_patterns : forall ch, 0 <= ch < 256 -> want_of ch = want_ranges ch.
+Proof. exact want_of_ranges. Qed.
+Print Assumptions C08_utf8_table_is_bit_patterns.
+
+(* `int32_t value` never overflows *)
+Theorem C08_utf8_value_fits_int32 : forall ch cs v, 0 <= ch < 256 -> WfSeq (ch :: cs) v -> 0 <= v < 2147483648.
+Proof. exact wfseq_value_int32. Qed.
+Print Assumptions C08_utf8_value_fits_int32.
+
+(* against the Unicode standard (table 3-7, [uwf]): everything well-formed is accepted; the converse is false
+   (surrogates, beyond U+10FFFF, 5 / 6 octet forms) = finding C08-utf8-accepts-non-unicode *)
+Theorem C08_utf8_accepts_unicode_partial : forall bs, uwf bs = true -> utf8_constraint (Some bs) = 0.
+Proof. exact utf8_accepts_unicode_partial. Qed.
+Print Assumptions C08_utf8_accepts_unicode_partial.
+
+Theorem C08_utf8_accepts_only_unicode_refuted :
+  exists b1 b2 b3 b4,
+    (utf8_constraint (Some b1) = 0 /\ uwf b1 = false) /\ (utf8_constraint (Some b2) = 0 /\ uwf b2 = false) /\
+    (utf8_constraint (Some b3) = 0 /\ uwf b3 = false) /\ (utf8_constraint (Some b4) = 0 /\ uwf b4 = false).
+Proof. exact utf8_accepts_only_unicode_refuted. Qed.
+Print Assumptions C08_utf8_accepts_only_unicode_refuted.
+
+(* ------------------------------------------------------------------ SET_constraint and the producer of the structure (Rt/ConstraintsSet.v)
+   a SET structure = member slots + the _presence_map only the BER / XER decoders maintain *)
+From A1 Require Import Rt.ConstraintsSet.
+
+(* the verdict is the same whatever the map holds: decoded, built by assignment, any map *)
+Theorem C08_set_verdict_ignores_presence_map : forall f ms s s', slots s = slots s' -> set_walk f ms s = set_walk f ms s'.
+Proof. exact set_walk_ignores_presence_map. Qed.
+Print Assumptions C08_set_verdict_ignores_presence_map.
+
+Theorem C08_set_constraint_producer_independent : forall w ms vs bits, length bits = length vs ->
+  set_constraint w ms (with_map vs bits) = set_constraint w ms (decoded vs) /\
+  set_constraint w ms (hand_built vs) = set_constraint w ms (decoded vs).
+Proof. exact set_constraint_producer_independent. Qed.
+Print Assumptions C08_set_constraint_producer_independent.
+
+(* accepted <-> every filled slot passed its checker (flagged or not) and every empty slot is OPTIONAL *)
+Theorem C08_set_checks_every_filled_slot : forall f ms s, set_walk f ms s = ROk <-> members_ok f ms s = true.
+Proof. exact set_walk_ok_iff. Qed.
+Print Assumptions C08_set_checks_every_filled_slot.
+
+Theorem C08_set_rejects_bad_member : forall f ms1 m ms2 s1 v b s2 why,
+  length ms1 = length s1 -> members_ok f ms1 s1 = true -> is_vnone v = false -> f m v = RFail why ->
+  set_walk f (ms1 ++ m :: ms2) (s1 ++ (v, b) :: s2) = RFail why.
+Proof. exact set_walk_rejects_bad_member. Qed.
+Print Assumptions C08_set_rejects_bad_member.
+
+(* inside the region of check_exact: SET_constraint = the Spec, whoever produced the structure *)
+Theorem C08_set_constraint_exact_partial : forall w ms s,
+  safe w (CSeq ms) false = true -> repr w (CSeq ms) (VSeq (slots s)) = true ->
+  (set_constraint w ms s = ROk <-> satisfies (CSeq ms) (VSeq (slots s)) = true).
+Proof. exact set_constraint_exact_partial. Qed.
+Print Assumptions C08_set_constraint_exact_partial.
+
+(* the variant that consults the map (seeded change C08-9) accepts an invalid hand-built value, and cannot be told
+   from SET_constraint on decoded structures *)
+Theorem C08_set_presence_map_variant_refuted : exists ms vs,
+  set_walk_pm (fun m x => chk false m true x) ms (hand_built vs) = ROk /\
+  set_constraint false ms (hand_built vs) = RFail WConstraint /\
+  set_constraint false ms (decoded vs) = RFail WConstraint /\
+  set_walk_pm (fun m x => chk false m true x) ms (decoded vs) = RFail WConstraint /\
+  satisfies (CSeq ms) (VSeq vs) = false.
+Proof. exact set_walk_pm_refuted. Qed.
+Print Assumptions C08_set_presence_map_variant_refuted.
+
+Theorem C08_set_presence_map_variant_same_on_decoded : forall f ms vs,
+  set_walk_pm f ms (decoded vs) = set_walk f ms (decoded vs).
+Proof. exact set_walk_pm_same_on_decoded. Qed.
+Print Assumptions C08_set_presence_map_variant_same_on_decoded.
